@@ -887,64 +887,137 @@ func simRegistry(term, svc, model map[string]*ast.File) {
 	}
 	fmt.Fprintf(&out, "(* createDefaultHandle in source order: (registered id, ReplyBody declarer) *)\n")
 	fmt.Fprintf(&out, "Definition gen_reply_body_decl : list (N * N) := [%s].\n\n", strings.Join(rows, "; "))
-	// --- per-connection construction: GoJT808.Run calls createDefaultHandle() and newConnection(...) INSIDE the
-	// accept loop (after AcceptTCP), and every value of createDefaultHandle's map literal is built from a fresh
-	// composite literal &model.T{} (checked above: firstModelLit of every entry) - no handler object, channel or
-	// serial counter is shared between connections
-	perConn := false
-	if run := findFunc(svc, "GoJT808", "Run"); run != nil {
-		ast.Inspect(run.Body, func(n ast.Node) bool {
-			fs, ok := n.(*ast.ForStmt)
-			if !ok {
-				return true
+	// --- per-connection construction.  Three outcomes:
+	//   true   RECOGNISED and right: inside GoJT808.Run's accept loop (the `for` that calls AcceptTCP), directly or
+	//          through ONE level of helper function / method of this package called in the loop, both
+	//          createDefaultHandle() and newConnection(...) are called; every value of createDefaultHandle's map literal
+	//          is a fresh &model.T{} (checked above); newConnection's composite literal makes msgChan / reissuePackChan
+	//          and sets platformSerialNumber
+	//   false  RECOGNISED and wrong: createDefaultHandle (or newConnection) is called, but NOT inside the loop (a
+	//          handler map built once and shared), or newConnection's literal takes one of the three fields from
+	//          something that is not made per call
+	//   (omitted, listed in gen_unrecognised) the shape is NOT recognised: no accept loop / no call site of
+	//          createDefaultHandle anywhere / newConnection or its literal not found.  bin/check then reports the tie as
+	//          unavailable (NOTE) and the correspondence decides; it never reports a broken obligation for it.
+	calledNames := func(n ast.Node) map[string]bool {
+		seen := map[string]bool{}
+		ast.Inspect(n, func(m ast.Node) bool {
+			if c, ok := m.(*ast.CallExpr); ok {
+				switch f := c.Fun.(type) {
+				case *ast.SelectorExpr:
+					seen[f.Sel.Name] = true
+				case *ast.Ident:
+					seen[f.Name] = true
+				}
 			}
-			seen := map[string]bool{}
-			ast.Inspect(fs.Body, func(m ast.Node) bool {
-				if c, ok := m.(*ast.CallExpr); ok {
-					switch f := c.Fun.(type) {
-					case *ast.SelectorExpr:
-						seen[f.Sel.Name] = true
-					case *ast.Ident:
-						seen[f.Name] = true
+			return true
+		})
+		return seen
+	}
+	funcByName := func(name string) *ast.FuncDecl { // any function or method of package service with that name
+		for _, f := range svc {
+			for _, d := range f.Decls {
+				if fd, ok := d.(*ast.FuncDecl); ok && fd.Name.Name == name && fd.Body != nil {
+					return fd
+				}
+			}
+		}
+		return nil
+	}
+	perConn, recognised, why := false, false, ""
+	if run := findFunc(svc, "GoJT808", "Run"); run == nil {
+		why = "GoJT808.Run not found"
+	} else {
+		var loop *ast.ForStmt
+		ast.Inspect(run.Body, func(n ast.Node) bool {
+			if fs, ok := n.(*ast.ForStmt); ok && loop == nil && calledNames(fs.Body)["AcceptTCP"] {
+				loop = fs
+			}
+			return true
+		})
+		if loop == nil {
+			why = "no accept loop (for ... AcceptTCP) in GoJT808.Run"
+		} else {
+			inside := calledNames(loop.Body)
+			for name := range calledNames(loop.Body) { // one level of helper
+				if name == "createDefaultHandle" || name == "newConnection" {
+					continue
+				}
+				if fd := funcByName(name); fd != nil {
+					for k := range calledNames(fd.Body) {
+						inside[k] = true
+					}
+				}
+			}
+			// every call site of the two constructors in the package
+			anywhere := map[string]bool{}
+			for _, f := range svc {
+				for k := range calledNames(f) {
+					anywhere[k] = true
+				}
+			}
+			switch {
+			case inside["createDefaultHandle"] && inside["newConnection"]:
+				perConn, recognised = true, true
+			case anywhere["createDefaultHandle"] && anywhere["newConnection"]:
+				perConn, recognised = false, true // called, but not per accepted connection
+			default:
+				why = "no call site of createDefaultHandle / newConnection found"
+			}
+		}
+	}
+	if recognised && perConn {
+		if nc := findFunc(svc, "", "newConnection"); nc == nil {
+			recognised, why = false, "newConnection not found"
+		} else {
+			made, other := map[string]bool{}, map[string]bool{}
+			ast.Inspect(nc.Body, func(n ast.Node) bool {
+				if kv, ok := n.(*ast.KeyValueExpr); ok {
+					if k, ok := kv.Key.(*ast.Ident); ok {
+						fresh := false
+						if call, ok := kv.Value.(*ast.CallExpr); ok {
+							if f, ok := call.Fun.(*ast.Ident); ok && (f.Name == "make" || f.Name == "uint16") {
+								fresh = true
+							}
+						}
+						if lit, ok := kv.Value.(*ast.BasicLit); ok && lit.Kind == token.INT {
+							fresh = true
+						}
+						if fresh {
+							made[k.Name] = true
+						} else {
+							other[k.Name] = true
+						}
 					}
 				}
 				return true
 			})
-			if seen["AcceptTCP"] && seen["createDefaultHandle"] && seen["newConnection"] {
-				perConn = true
-			}
-			return true
-		})
-	}
-	// ... and newConnection builds the connection's own channels and serial counter: its composite literal has
-	// msgChan: make(...), reissuePackChan: make(...), platformSerialNumber: <expr>
-	if nc := findFunc(svc, "", "newConnection"); nc != nil {
-		made := map[string]bool{}
-		ast.Inspect(nc.Body, func(n ast.Node) bool {
-			if kv, ok := n.(*ast.KeyValueExpr); ok {
-				if k, ok := kv.Key.(*ast.Ident); ok {
-					if call, ok := kv.Value.(*ast.CallExpr); ok {
-						if f, ok := call.Fun.(*ast.Ident); ok && (f.Name == "make" || f.Name == "uint16") {
-							made[k.Name] = true
-						}
-					}
+			for _, fld := range []string{"msgChan", "reissuePackChan", "platformSerialNumber"} {
+				switch {
+				case made[fld]:
+				case other[fld]:
+					perConn = false // the field is set from something not made per call
+				default:
+					recognised, why = false, "newConnection's literal has no field "+fld
 				}
 			}
-			return true
-		})
-		if !(made["msgChan"] && made["reissuePackChan"] && made["platformSerialNumber"]) {
-			perConn = false
 		}
-	} else {
-		perConn = false
 	}
-	fmt.Fprintf(&out, "(* GoJT808.Run: createDefaultHandle() and newConnection() are called inside the accept loop; newConnection makes msgChan, reissuePackChan and sets platformSerialNumber *)\n")
-	fmt.Fprintf(&out, "Definition gen_handles_per_connection : bool := %t.\n\n", perConn)
+	if recognised {
+		fmt.Fprintf(&out, "(* GoJT808.Run: createDefaultHandle() and newConnection() are called inside the accept loop (directly or through one helper); newConnection makes msgChan, reissuePackChan and sets platformSerialNumber *)\n")
+		fmt.Fprintf(&out, "Definition gen_handles_per_connection : bool := %t.\n\n", perConn)
+	} else {
+		fail("handles_per_connection", why)
+	}
 	// --- the message ids connection.onActiveRespondEvent can hand to a waiting SendActiveMessage caller
 	// (the cases of its switch, in source order; the writer tries it only when hasComplete())
 	if rf := findFunc(svc, "connection", "onActiveRespondEvent"); rf != nil {
-		fmt.Fprintf(&out, "(* connection.onActiveRespondEvent: the message ids of its switch, in source order *)\n")
-		fmt.Fprintf(&out, "Definition gen_active_respond_ids : list N := %s.\n\n", nlist(caseValues(rf, nil)))
+		if ids := caseValues(rf, nil); len(ids) > 0 {
+			fmt.Fprintf(&out, "(* connection.onActiveRespondEvent: the message ids of its switch, in source order (the order is not behaviour) *)\n")
+			fmt.Fprintf(&out, "Definition gen_active_respond_ids : list N := %s.\n\n", nlist(ids))
+		} else {
+			fail("active_respond_ids", "no switch cases with constant ids in onActiveRespondEvent")
+		}
 	} else {
 		fail("active_respond_ids", "onActiveRespondEvent not found")
 	}
